@@ -70,6 +70,10 @@ def confirm(prop, mutdir, name):
 
 
 def detect(name, tier):
+    if os.path.exists('/tmp/r6/STOP_' + name):
+        os.remove('/tmp/r6/STOP_' + name)
+        print('skipped', name)
+        return
     dst = os.path.join('/verif/seeded', name)
     meta = json.load(open(os.path.join(dst, 'meta.json')))
     prop = meta['property']
